@@ -31,7 +31,7 @@ USER_OPS = ["seed", "random", "normal", "shuffle"]
 
 @st.composite
 def op_spec(draw):
-    kind = draw(st.sampled_from(["dense_pd", "dense_pd", "diag", "sum", "kron"]))
+    kind = draw(st.sampled_from(["dense_pd", "dense_pd", "diag", "sum", "kron", "dense_pd_complex", "diag_complex"]))
     n = draw(st.integers(2, 10))
     if kind == "kron":
         n = draw(st.sampled_from([4, 6, 8, 9]))
@@ -48,6 +48,8 @@ def call_spec(draw, routines=ROUTINES):
                     max_iters=draw(st.integers(1, 12)), tol=draw(st.sampled_from([1.0001e-3, 3e-2, 0.5])))
     elif rt == "slq":
         spec.update(max_iters=draw(st.integers(2, n)), vtol=draw(st.sampled_from([0.5, 0.3])))
+        if spec["op"]["kind"] == "diag_complex":
+            spec["op"]["kind"] = "dense_pd_complex"  # slq needs a Hermitian operator
     elif rt in ("lanczos_default", "arnoldi_default"):
         spec.update(max_iters=draw(st.integers(1, n)))
     elif rt == "power_iteration":
@@ -96,6 +98,13 @@ def build_op(spec):
         B = rng.integers(-2, 3, size=(n, n)).astype(np.float64)
         M = B @ B.T / n + np.eye(n)
         return cola.PSD(cola.ops.Dense(M)), M
+    if kind == "dense_pd_complex":  # complex Hermitian positive definite
+        B = rng.integers(-2, 3, size=(n, n)) + 1j * rng.integers(-2, 3, size=(n, n))
+        M = B @ B.conj().T / n + np.eye(n)
+        return cola.PSD(cola.ops.Dense(M.astype(np.complex128))), M.astype(np.complex128)
+    if kind == "diag_complex":
+        d = rng.integers(1, 6, size=n) + 1j * rng.integers(-3, 4, size=n)
+        return cola.ops.Diagonal(d.astype(np.complex128)), np.diag(d).astype(np.complex128)
     if kind == "diag":
         d = rng.integers(1, 6, size=n).astype(np.float64)
         return cola.PSD(cola.ops.Diagonal(d)), np.diag(d)
@@ -288,7 +297,10 @@ def _check(case, out, mode):
         from cola.linalg.trace.diagonal_estimation import hutchinson_diag_estimate
         L = cola.linalg
         n = case["n"]
-        d = np.random.default_rng(case["seed"]).integers(-5, 6, size=n).astype(np.float64)
+        rs = np.random.default_rng(case["seed"])
+        d = rs.integers(-5, 6, size=n).astype(np.float64)
+        if case["seed"] % 3 == 0:  # complex diagonal
+            d = d + 1j * rs.integers(-5, 6, size=n)
         A = cola.ops.Diagonal(d)
         out.nontrivial = True
         try:
@@ -328,9 +340,9 @@ def _check(case, out, mode):
             return
         rows = np.arange(n - abs(k)) + (0 if k >= 0 else -k)
         cols = rows + k
-        rowsq = (M[rows] ** 2).sum(1)
-        var = rowsq + ref**2 if spec["rand"] == "normal" else rowsq - ref**2
+        rowsq = (np.abs(M[rows]) ** 2).sum(1)
+        var = rowsq + np.abs(ref)**2 if spec["rand"] == "normal" else rowsq - np.abs(ref)**2
         z = np.abs(est - ref) / (np.sqrt(np.maximum(var, 0) / N) + 1e-12)
         if np.max(z) > 7:
             i = int(np.argmax(z))
-            out.fail("unbiased", f"hutch:{spec['rand']}:{'k0' if k == 0 else 'k!=0'}", "biased", f"entry {i}: estimate {est[i]:.4f} vs {ref[i]:.4f}, z = {z[i]:.1f} with N = {N} probes (k={k}, n={n})")
+            out.fail("unbiased", f"hutch:{spec['rand']}:{'k0' if k == 0 else 'k!=0'}", "biased", f"entry {i}: estimate {est[i]:.4g} vs {ref[i]:.4g}, z = {z[i]:.1f} with N = {N} probes (k={k}, n={n})")
